@@ -46,6 +46,9 @@ THEOREMS = [
     "SynKit.ReactorInv.own_template_regenerates_partial",
     "SynKit.ReactorInv.own_template_regenerates_all_partial",
     "SynKit.ReactorInv.own_template_backward_partial",
+    "SynKit.ReactorLink.glue_own_template_partial",
+    "SynKit.ReactorInv.C04.glueRebuilds_concrete_partial",
+    "SynKit.ReactorInv.C04.own_template_regenerates_concrete_partial",
 ]
 
 
